@@ -109,6 +109,33 @@ func (e *Exec) call(fr *Frame, st *State, ins ssa.Instruction, cc *ssa.CallCommo
 		}
 		return e.unknownCall(fr, st, ins, name, rtyp, args)
 	}
+	if e.eng.recursiveSpec(callee) {
+		// a recursive specification function is an uninterpreted function with its definition unfolded once at
+		// every ground call (inner calls stay folded)
+		v := e.ufCall(st, callee, args, rtyp)
+		ground := true
+		for _, a := range args {
+			if a.T == nil || a.T.bound {
+				ground = false
+			}
+		}
+		if e.unfolding == nil {
+			e.unfolding, e.unfolded = map[*ssa.Function]int{}, map[int]bool{}
+		}
+		if ground && e.unfolding[callee] == 0 && !e.unfolded[v.T.id] {
+			e.unfolded[v.T.id] = true
+			e.unfolding[callee]++
+			e.pure++
+			cs := st.clone()
+			cs.reach = e.c.True()
+			body := e.inline(fr, cs, callee, args, nil)
+			e.pure--
+			e.unfolding[callee]--
+			e.c.AddFact(v.T, e.c.Eq(v.T, body.T))
+			e.assumed["recursive specification function (unfolded once per call, assumed well-founded): "+shortFn(callee)] = true
+		}
+		return v
+	}
 	if e.eng.inlinable(callee, e.pure > 0) {
 		if v, ok := e.tryInline(fr, st, callee, args, bindings); ok {
 			return v
